@@ -425,6 +425,16 @@ def System.step (y : System) : SysEv → System
 
 def System.run (y : System) (evs : List SysEv) : System := evs.foldl System.step y
 
+/-- a schedule that finishes one service from any reachable state: ask it to stop, then let `main()` run
+and let every function return nil (12 = number of program counters of `main()`; steps that are not
+enabled are no-ops). -/
+def svcFinish : List Ev :=
+  .stopAsync :: (List.replicate 12 [Ev.tau, .startRet none, .runRet none, .stopRet none]).flatten
+
+/-- … and the whole system: finish every service, hand its (at most 4) notifications to the manager. -/
+def sysFinish (n : Nat) : List SysEv :=
+  (List.range n).flatMap fun i => svcFinish.map (SysEv.svc i) ++ List.replicate 4 (SysEv.handover i)
+
 /-! ## FailureWatcher -/
 
 /-- `unregistered` = number of listener-remove funcs run by Close; `forwarded` = ghost log of sends on `ch`. -/
